@@ -138,6 +138,48 @@ theorem counted_load_inv {α β : Type} (c : Res Nat) (f : Nat → St → Res (L
       subst h1 h2
       exact ⟨n, s1, l, rfl, hf, rfl⟩
 
+/-- **Container elements load independently of each other.**  `details::archive_load_container` (vector / list / set /
+multiset of non-arithmetic elements) declares `value_type tmp;` *inside* the element loop (pinned by the translator:
+`Gen.containerTmpPerElement`; the `std::map`/`multimap` macro's `pair_type tmp;` and the pointers' `new V()` likewise), so every element
+is loaded into a default-constructed object: the load of the container is the count followed by a chain of applications of
+the one state-only function `load b t` (`Steps`), and for a user class with optional members that function is its `serialize`
+run on the default object (`loadTaggedInto … (dflt …)`), never on what the previous element left behind. -/
+theorem container_elements_load_independently [JsonCodec] (b : Bytes) (t : Ty) (s s' : St)
+    (_pin : Gen.containerTmpPerElement = true) :
+    (∀ v : List (Val t), load b (.seq t) s = .ok v s' ↔
+      ∃ s1, loadCount b s = .ok v.length s1 ∧ Steps (load b t) s1 v s') ∧
+    (∀ v : List (Val t), load b (.set t) s = .ok v s' →
+      ∃ s1 l, loadCount b s = .ok l.length s1 ∧ Steps (load b t) s1 l s' ∧ v = setOfList (lt t) l) ∧
+    (∀ v : List (Val t), load b (.mset t) s = .ok v s' →
+      ∃ s1 l, loadCount b s = .ok l.length s1 ∧ Steps (load b t) s1 l s' ∧ v = msetOfList (lt t) l) ∧
+    (∀ (ta tb : Ty) (st : St), load b (.tagged ta tb) st =
+      loadTaggedInto (load b ta) (load b tb) (List.replicate 4 0, dflt ta, dflt tb) b st) := by
+  refine ⟨?_, ?_, ?_, fun _ _ _ => rfl⟩
+  · intro v
+    simp only [load]
+    constructor
+    · intro h
+      cases hc : loadCount b s with
+      | err e s1 => rw [hc] at h; cases h
+      | ok n s1 =>
+        rw [hc] at h
+        have h : loadN (load b t) n s1 = .ok v s' := h
+        obtain ⟨hl, hs⟩ := (loadN_ok_iff (load b t) n s1 v s').mp h
+        exact ⟨s1, by rw [hl], hs⟩
+    · rintro ⟨s1, hc, hs⟩
+      rw [hc]
+      exact (loadN_ok_iff (load b t) v.length s1 v s').mpr ⟨rfl, hs⟩
+  · intro v h
+    simp only [load] at h
+    obtain ⟨n, s1, l, h1, h2, h3⟩ := counted_load_inv _ _ _ v s' h
+    obtain ⟨hl, hs⟩ := (loadN_ok_iff (load b t) n s1 l s').mp h2
+    exact ⟨s1, l, by rw [hl]; exact h1, hs, h3⟩
+  · intro v h
+    simp only [load] at h
+    obtain ⟨n, s1, l, h1, h2, h3⟩ := counted_load_inv _ _ _ v s' h
+    obtain ⟨hl, hs⟩ := (loadN_ok_iff (load b t) n s1 l s').mp h2
+    exact ⟨s1, l, by rw [hl]; exact h1, hs, h3⟩
+
 /-- **`std::multimap` / `std::multiset`: equal keys keep their archive order.**  Whatever the archive holds (also
 unsorted, also malformed elsewhere): if the load succeeds with `v`, then `v` is a permutation of the entries `l` in the
 order they were read, and for every key `key` the entries of `v` equivalent to it are exactly those of `l`, in the
@@ -389,7 +431,7 @@ theorem string_roundtrip_fails_beyond_guard [JsonCodec] (data : Bytes) (hbig : 2
 /-! ## non-vacuity: concrete instances of the hypotheses and of both outcomes -/
 
 /-- for the examples: a codec whose values are their own text -/
-local instance : JsonCodec := ⟨Bytes, some, some⟩
+local instance : JsonCodec := ⟨Bytes, some, some, [], List.isEmpty, by intro x h; simpa using h, rfl⟩
 
 
 /-- `std::map<std::string, std::vector<uint16_t>>` with two entries, `shared_ptr`, a set: well-formed and within the guard -/
@@ -439,6 +481,16 @@ example : ∃ s, loadArchive (.mmap (.pod 1) .str)
 example : ∃ s, loadArchive (.map (.pod 1) .str)
     [8,0,0,0, 4,0,0,0,0,0,0,0,  1,0,0,0,2, 1,0,0,0,97,  1,0,0,0,1, 1,0,0,0,98,  1,0,0,0,2, 1,0,0,0,99,  1,0,0,0,1, 1,0,0,0,100]
     = .ok [([1], [98]), ([2], [97])] s := ⟨_, rfl⟩
+
+/-- why the placement of `value_type tmp;` matters: the same bytes (`kind = 0`, nothing else) loaded into an object that still holds
+the previous element's optional member keep that member, loaded into a default-constructed object they do not -/
+example : (∃ s, loadTaggedInto (load [4,0,0,0, 0,0,0,0] .str) (load [4,0,0,0, 0,0,0,0] (.vecPod 4)) ([1,0,0,0], [104, 105], []) [4,0,0,0, 0,0,0,0] St.init
+      = .ok ([0,0,0,0], [104, 105], []) s) ∧
+    (∃ s, load [4,0,0,0, 0,0,0,0] (.tagged .str (.vecPod 4)) St.init = .ok ([0,0,0,0], [], []) s) := ⟨⟨_, rfl⟩, ⟨_, rfl⟩⟩
+
+/-- a vector of three tagged records (kind 1 with note "hi", kind 0, kind 2 with one number): well-formed, and the unselected members are default -/
+example : wf (.seq (.tagged .str (.vecPod 4))) [([1,0,0,0], [104, 105], []), ([0,0,0,0], [], []), ([2,0,0,0], [], [7,0,0,0])] = true
+    ∧ wf (.seq (.tagged .str (.vecPod 4))) [([0,0,0,0], [104, 105], [])] = false := by decide
 
 /-- a malformed set archive (elements 2, 1, 2 in that order) loads as the sorted, duplicate-free set {1, 2} -/
 example : ∃ s, loadArchive (.set (.pod 1)) [8,0,0,0, 3,0,0,0,0,0,0,0, 1,0,0,0, 2, 1,0,0,0, 1, 1,0,0,0, 2] = .ok [[1], [2]] s :=
